@@ -59,11 +59,15 @@ def _table_case(draw):
     n_s = draw(st.integers(1, 3))
     n_m = draw(st.integers(1, 6))
     rows = []
+    # numeric sample ids sort differently as numbers (2 < 9 < 10) and as strings ("10" < "2" < "9"): the loader
+    # documents sorted (string) sample order
+    numeric_samples = draw(st.sampled_from([False, True, False]))
+    sid = [10, 2, 9] if numeric_samples else ["s0", "s1", "s2"]
     for m in range(n_m):
         for s in range(n_s):
             major, minor, normal, t, eps = draw(_row_params())
             ref, alt = draw(_counts())
-            rows.append(dict(mutation_id="m%d" % m, sample_id="s%d" % s, ref_counts=ref, alt_counts=alt, major_cn=major, minor_cn=minor, normal_cn=normal, tumour_content=t, error_rate=eps))
+            rows.append(dict(mutation_id="m%d" % m, sample_id=sid[s], ref_counts=ref, alt_counts=alt, major_cn=major, minor_cn=minor, normal_cn=normal, tumour_content=t, error_rate=eps))
     rows = draw(st.permutations(rows))
     clusters = None
     if draw(st.booleans()):
@@ -146,10 +150,14 @@ def _table(case):
     except Exception as e:
         raise crash_violation("load", e, tags)
     muts = sorted({r["mutation_id"] for r in rows})
-    exp_samples = sorted({r["sample_id"] for r in rows})
-    if list(samples) != exp_samples:
+    exp_samples = sorted({str(r["sample_id"]) for r in rows})
+    if [str(x) for x in samples] != exp_samples:
         raise Violation("samples", "samples %r, expected %r" % (list(samples), exp_samples), tags)
-    byk = {(r["mutation_id"], r["sample_id"]): r for r in rows}
+    byk = {(r["mutation_id"], str(r["sample_id"])): r for r in rows}
+    if any(not isinstance(r["sample_id"], str) for r in rows):
+        classes_numeric = True
+    else:
+        classes_numeric = False
     grids = {}
     classes = set(["kind:table", "density:" + density, "clustered" if case["clusters"] else "unclustered"])
     nontriv = False
@@ -211,4 +219,6 @@ def _table(case):
             classes.add("cluster-size>1")
     if p > 0:
         classes.add("outlier_prob>0")
+    if classes_numeric and len(exp_samples) > 1:
+        classes.add("numeric-sample-ids")
     return Outcome(nontrivial=nontriv, classes=tuple(sorted(classes)), info=dict(rows=rows[:3], n_rows=len(rows), density=density, precision=prec, G=G, clusters=case["clusters"]), weight=len(rows))
